@@ -134,6 +134,88 @@ def oracle(ctx, fams, quick):
     return len(fams) * len(sizes)
 
 
+# ---------------------------------------------------------------- deterministic work counter
+OPENERS = [("[![", "](u)](u)"), ("[a ![b ", "](u)](v)"), ("*", "*"), ("**", "**"), ("_", "_"), ("[", "](u)"), ("![", "](u)"), ("<a>", "</a>"), ("[</a>", "](u)"), ("`", "`"), ("~~", "~~"),
+           ("==", "=="), ("^", "^"), ("[^", "]"), ("<b>", "</b>"), ("*_", "_*"), ("***", "***"), ("[*", "*](u)"), ("<", ">"), ("\\", ""), ("&", ";"), ("$", "$"), (">!", "!<"), ("[", "]"), ("(", ")"),
+           ("[</a>", "]"), ("<a ", ">"), ("[a](", ")"), ("*[", "]"), ("{", "}")]
+PAYLOADS = ["x", "*a ", "_a ", "`", "[", "<a>", "a ", "\\", "&", "![", "~~a ", "](", "<", "\n"]
+LINE_UNITS = [".. toc::\n", "```{toc}\n```\n", "[^1]: n\n", "*[A]: t\n", "[x]: u\n", "# h\n", "| a |\n", ": d\n", "term\n", "- [ ] k\n", ".. note:: t\n", "> q\n", "- i\n", "[^1] ", "A ", "[x] "]
+MIDS = ["", "x", "\n", "\n# ", " ", "\n\n"]
+
+
+def build3(f, n):
+    a, b, c = f
+    if b in MIDS:
+        return a * n + b + c * n          # two-sided pump around a fixed middle
+    return a * n + b * n + c * n          # three runs growing together
+
+
+def count_families(ctx, quick):
+    fams = []
+    for o, c in OPENERS:
+        for pay in PAYLOADS:
+            fams.append((o, pay, c))
+    for l in LINE_UNITS:
+        for mid in ("\n# ", "\n", ""):
+            for o in [x for x, _ in OPENERS[:14]] + ["a ", "*a "]:
+                fams.append((l, mid, o))
+    for _ in range(300 if quick else 6000):
+        fams.append((ctx.rng.choice(UNIT_TOKENS + LINE_UNITS), ctx.rng.choice(MIDS + PAYLOADS), ctx.rng.choice(UNIT_TOKENS + [c for _, c in OPENERS])))
+    return fams
+
+
+def count_oracle(ctx, quick):
+    """Handler invocations (every call of a block or inline rule handler, nested inline parses included) are deterministic:
+    on the pinned tree they grow linearly on every family below.  Growth by more than 5.5x per doubling over two
+    consecutive doublings (cubic is 8x), or a tiny input that does not finish, is re-scanning."""
+    os.environ["MISTUNE_SRC"] = common.repo_src()
+    fams = count_families(ctx, quick)
+    sizes = [6, 12, 24, 48]
+    cfg = CFGS[3]
+    tasks = [(cfg, build3(f, n), 6.0) for f in fams for n in sizes]
+    res = worker.run_all(tasks, workers=14, fn=worker.count_convert)
+    worst = 0.0
+    timed = []
+    for i, f in enumerate(fams):
+        rs = res[i * 4:(i + 1) * 4]
+        cs = [r.get("calls") if r["status"] == "ok" else r["status"] for r in rs]
+        rep = {"prefix": "", "unit": "", "suffix": "", "family3": list(f), "config": cfg, "handler_calls": dict(zip(map(str, sizes), cs)), "doc_n12": build3(f, 12)}
+        if "timeout" in cs:
+            k = cs.index("timeout")
+            ctx.fail("work:tiny-input-timeout", "the %d-character input %r (family %r, n=%d) does not convert within 6 s under %s; handler calls at smaller n: %s" % (len(build3(f, sizes[k])), build3(f, sizes[k])[:60], f, sizes[k], cfg["name"], cs), rep)
+            continue
+        if any(not isinstance(c, int) for c in cs):
+            continue
+        r1, r2 = cs[2] / max(cs[1], 1), cs[3] / max(cs[2], 1)
+        worst = max(worst, min(r1, r2))
+        if r1 > 5.5 and r2 > 5.5 and cs[3] > 3000:
+            ctx.fail("work:superquadratic-handler-calls", "family %r: rule-handler invocations grow %.1fx and %.1fx per doubling of n (%s) under %s: the same text is scanned again and again" % (f, r1, r2, dict(zip(sizes, cs)), cfg["name"]), rep)
+        elif r1 > 3.0 and r2 > 3.0 and cs[3] > 1000 and len(timed) < 6:
+            # quadratically many handler calls, each of which may scan O(n) characters: measure the time, alone
+            timed.append(f)
+            ms = [100, 200, 400, 800, 1600]
+            alone = {}
+            for n in ms:
+                r = worker.run_all([(cfg, build3(f, n), 60.0)], workers=1)[0]
+                alone[n] = r["cpu"] if r["status"] == "ok" else r["status"]
+                if r["status"] != "ok":
+                    break
+            rep["cpu_s"] = {str(k): v for k, v in alone.items()}
+            pts = [(n, v) for n, v in alone.items() if isinstance(v, float)]
+            if "timeout" in alone.values():
+                k = [n for n, v in alone.items() if v == "timeout"][0]
+                ctx.fail("time:timeout", "family %r (handler calls %s) does not convert within 60 s at n=%d (%d characters) under %s" % (f, dict(zip(sizes, cs)), k, len(build3(f, k)), cfg["name"]), rep)
+            elif len(pts) >= 4:
+                big = [(n, v) for n, v in pts if v > 0.02] or pts
+                if len(big) >= 3:
+                    sl = slope([n for n, _ in big], [v for _, v in big])
+                    if sl > 2.35 and big[-1][1] > 0.5:
+                        ctx.fail("time:superquadratic", "family %r: handler calls grow %.1fx per doubling and CPU time with exponent %.2f (%s) under %s" % (f, r2, sl, {n: round(v, 3) for n, v in pts}, cfg["name"]), rep)
+    ctx.cov["count_families"] = len(fams)
+    ctx.cov["worst_handler_growth_per_doubling"] = round(worst, 2)
+    return len(tasks)
+
+
 FOCUS = [("[", "\\*", ""), ("[", "\\", ""), ("a", " ", "b"), ("[a](/u \"", "\\!", ""), ("[^", "\\]", ""), ("[x]: /u '", "\\'", ""), ("<a ", "b=\"c\" ", ""), ("", "a ", "\n"), ("", "  ", "x"),
          ("*[", "\\]", ""), ("", "\\\n", ""), ("", " \t", "x")]
 
@@ -142,7 +224,8 @@ def run(ctx):
     ctx.broken += common.proof_stage(ctx, THEOREMS)
     q = ctx.quick()
     fams = FOCUS + families(ctx, 60 if q else 1500)
-    n = oracle(ctx, fams, q)
+    n = count_oracle(ctx, q)
+    n += oracle(ctx, fams, q)
     if ctx.broken and not ctx.failures:
         ctx.notes.append("search mode entered: " + "; ".join(ctx.broken)[:300])
         n += oracle(ctx, FOCUS + families(ctx, 600), False)
@@ -160,6 +243,11 @@ def run(ctx):
 def replay(ctx, path):
     r = json.load(open(path))["replay"]
     os.environ["MISTUNE_SRC"] = common.repo_src()
+    if r.get("family3"):
+        f = tuple(r["family3"])
+        for n in (6, 12, 24, 48):
+            print(n, worker.run_all([(r["config"], build3(f, n), 6.0)], workers=1, fn=worker.count_convert)[0])
+        return 1
     f = (r["prefix"], r["unit"], r["suffix"])
     print(remeasure_alone(f, r["config"], [100, 200, 400, 800], 60.0))
     return 1
